@@ -77,7 +77,7 @@ pub fn inject(w: &mut World, ctx: &mut Ctx, victim: usize) -> Outcome {
     let was_connected = w.receiver(d).map(|r| !r.is_disconnected()).unwrap_or(false);
     // record as a hostile packet and hand it over like any other
     let pid = w.packets.len();
-    w.packets.push(PktRec { dir: d, bytes, seq: u64::MAX, info: PInfo::Undecodable, sent_at_ms: w.now_ms, flush_no: u64::MAX, handed: 0, hostile: true });
+    w.packets.push(PktRec { dir: d, bytes, seq: u64::MAX, info: PInfo::Undecodable, sent_at_ms: w.now_ms, flush_no: u64::MAX, handed: 0, last_handed_ms: 0, hostile: true });
     w.hostile_seen[victim] = true;
     w.handover(pid)?;
     if was_connected {
@@ -118,7 +118,7 @@ impl Property for C06 {
         vec!["channel ids used by the application exist (the API documents a panic otherwise)".into(), "message contents on the victim connection are not judged: at this layer whoever can inject packets is the peer".into()]
     }
     fn pbt(&self, tier: Tier) -> PbtCfg {
-        PbtCfg { cases: tier.pick(8_000, 400_000), max_len: tier.pick(2000, 6000), shrink_ms: 120_000 }
+        PbtCfg { cases: tier.pick(200_000, 6_000_000), max_len: tier.pick(2000, 6000), shrink_ms: 120_000 }
     }
     fn required_labels(&self) -> Vec<&'static str> {
         vec!["inject_reached_state", "inject_contradicting_slice", "inject_parsed_ack", "inject_unparsed", "victim_disconnected", "healed_complete"]
